@@ -62,14 +62,24 @@ package samlsp
 //@    trackedClaims(cl).Subject == value.Index && trackedClaims(cl).Issuer == s.Issuer
 //@ go func trackedClaims(c jwt.Claims) JWTTrackedRequestClaims { x, _ := c.(JWTTrackedRequestClaims); return x }
 
+//@ -- the default codecs are scoped to this deployment: audience and issuer are the SP's full URL (path included), the key
+//@ -- is the SP's, the lifetimes are the session default / the tracking lifetime
+//@ contract DefaultSessionCodec
+//@ ensures[C16] scope: result.Audience == opts.URL.String() && result.Issuer == opts.URL.String() && result.Key == opts.Key &&
+//@    result.MaxAge == defaultSessionMaxAge
 //@ contract DefaultTrackedRequestCodec
 //@ ensures[C17] lifetime: result.MaxAge == saml.MaxIssueDelay
+//@ ensures[C17] scope: result.Audience == opts.URL.String() && result.Issuer == opts.URL.String() && result.Key == opts.Key
 
 //@ contract DefaultRequestTracker
 //@ ensures[C17] lifetime: result.MaxAge == saml.MaxIssueDelay && result.ServiceProvider == serviceProvider
 
 //@ contract DefaultSessionProvider
 //@ ensures[C17] flags: result.HTTPOnly && result.Secure == (opts.URL.Scheme == "https")
+//@ ensures[C16] codec: isJWTSessionCodec(result.Codec) && sessionCodecOf(result.Codec).Audience == opts.URL.String() &&
+//@    sessionCodecOf(result.Codec).Issuer == opts.URL.String() && result.MaxAge == defaultSessionMaxAge
+//@ go func isJWTSessionCodec(c SessionCodec) bool { _, ok := c.(JWTSessionCodec); return ok }
+//@ go func sessionCodecOf(c SessionCodec) JWTSessionCodec { x, _ := c.(JWTSessionCodec); return x }
 
 //@ contract (CookieRequestTracker).GetTrackedRequest
 //@ requires[cfg] r: r != nil && t.Codec != nil
